@@ -33,6 +33,19 @@ check("C20",
       "TLA+ spec (C20_UF, C20_PQ) model-checked with TLC; transition-cover replay into the real classes; TLC trace validation (C20_Trace)",
       "DESIGN.md 6.20")
 
+check("C05",
+      "TLC checks an implementation-shaped model of both storages (dict + one default object; numpy rows + n_elem) "
+      "against the abstract total map: last-write-or-default, alignment after every growth, sparse/dense agreement, "
+      "out-of-bounds for every index outside 0..size-1 and no cross-entry aliasing, for 5 type/arity configurations, "
+      "container size <= 3 and all histories of depth 4 (quick) / 5 (thorough); the three deviations found in mouette "
+      "are switchable (AsBuilt) and each yields a counterexample. Every transition of the model is replayed on a real "
+      "DataContainer with one sparse and one dense attribute in lock-step; TLC validates each call's acceptance/rejection "
+      "and the full read-back of both attributes after every step; random histories of 20-60 calls are added.",
+      "Small-scope bounds as stated; values compared by Python equality; sparse writes only at in-range indices; after "
+      "an in-place update the updated entry itself is unconstrained. Trusted: TLC, the atom normal form in harness/c05.py.",
+      "TLA+ spec (C05_Attributes, C05_MC) model-checked with TLC; transition-cover replay into DataContainer/Attribute/ArrayAttribute; TLC trace validation (C05_Trace)",
+      "DESIGN.md 6.5")
+
 ALL = ["C%02d" % i for i in range(1, 21)]
 
 
